@@ -364,21 +364,13 @@ func (m *Message) ReadFrom(r io.Reader) error {
 }
 
 func readSection(reader *bufio.Reader, readN int) ([]byte, error) {
-	buf := make([]byte, readN)
-
-	var err error
-	n := 0
-	for n < readN {
-		m, err := reader.Read(buf[n:])
-		if err != nil {
-			break
-		}
-		n += m
+	if readN < 0 {
+		return nil, errors.New("Negative section size")
 	}
 
-	if err != nil {
-		return buf, err
-	}
+	// Don't trust the announced size when allocating: grow as data arrives.
+	buf, _ := io.ReadAll(io.LimitReader(reader, int64(readN)))
+	n := len(buf)
 
 	end, err := reader.ReadString('\n')
 	switch {
